@@ -34,11 +34,35 @@ def _norm(raws):
     return [[{str(x) for x in b} for b in r] for r in raws]
 
 
-UNIFYING_MULTIPLES = ("unifying", "unifying-x3")       # positive multiples of the unifying scheme (equivalent to it)
+def _proportional(pen, ref) -> bool:
+    """pen = k * ref for some k > 0 (same zero pattern, one common ratio): the schemes are equivalent"""
+    ratio = None
+    for v1, v2 in zip(pen, ref):
+        for x, y in zip(v1, v2):
+            if (x == 0) != (y == 0):
+                return False
+            if x != 0:
+                if ratio is None:
+                    ratio = x / y
+                elif abs(x / y - ratio) > 1e-12 * abs(ratio):
+                    return False
+    return ratio is None or ratio > 0
+
+
+def _exact_arithmetic(pen) -> bool:
+    """every penalty is a multiple of 1/64 of moderate size: sums of a few thousand of them are exact in floating point"""
+    return all(float(x * 64).is_integer() and abs(x) < 2 ** 20 for v in pen for x in v)
+
+
+_BORDA_FAMILIES = ("unifying", "unifying-p0.5", "induced", "induced-p0.5")
+# names of the schemes of the oracle that are positive multiples of the unifying scheme (equivalent to it) / of one of the
+# four families Borda documents
+UNIFYING_MULTIPLES = tuple(n for n, p_ in oracle.SCHEMES.items() if _proportional(p_, oracle.SCHEMES["unifying"]))
+BORDA_ACCEPTED = tuple(n for n, p_ in oracle.SCHEMES.items() if any(_proportional(p_, oracle.SCHEMES[f]) for f in _BORDA_FAMILIES))
 
 
 def _accepts(kind: str, sname: str, complete: bool) -> bool:
-    return complete or kind == "any" or (kind == "borda" and sname in ("unifying", "unifying-p0.5", "induced", "unifying-x3")) \
+    return complete or kind == "any" or (kind == "borda" and sname in BORDA_ACCEPTED) \
         or (kind == "pick" and sname in UNIFYING_MULTIPLES)
 
 
@@ -469,7 +493,9 @@ def _c10(w, ds, sch, raws, pen, sname, complete, pivot):
             bad = f"at_most_one={amo}: returns {got}; minimal inputs (score {best}) are {minimal}"
         elif amo and len(got) != 1:
             bad = f"at_most_one=True: {len(got)} rankings returned"
-        elif not amo and any(m not in got for m in minimal):
+        elif not amo and any(m not in got for m in minimal) and _exact_arithmetic(pen):
+            # (with penalties that binary floating point cannot represent, two mathematically equal sums may differ in
+            # their last bit: which of them the code calls minimal is then float noise, not decided here)
             bad = f"at_most_one=False: returns {got}, misses a minimal input among {minimal}"
         yield "pickaperm:best-inputs", bad
 
@@ -511,7 +537,8 @@ def _c11(w, ds, sch, raws, pen, sname, complete, pivot):
 
 def _c12(w, ds, sch, raws, pen, sname, complete, pivot):
     from .C12 import expected
-    kind = {"unifying": "UNI1", "unifying-x3": "UNI1", "unifying-p0.5": "UNI05", "induced": "IND1"}.get(sname, "OTHER")
+    from .C12 import KIND_TABLES
+    kind = next((k for k in ("UNI1", "UNI05", "IND1", "IND05") if _proportional(pen, KIND_TABLES[k])), "OTHER")
     for ubi in (False, True):
         alg = w.alg("borda.borda", "BordaCount", use_bucket_id=ubi)
         want = expected(oracle.universe(raws), raws, kind, ubi)
